@@ -482,3 +482,126 @@ def judge_batch(trace_lines, strict, workdir, name):
             return accepted, rejections, events, "depth beyond trace: " + res["out"][-2000:]
         os.remove(tp)
     return accepted, rejections, events, None
+
+
+# ------------------------------------------------------------------------------------------
+# Scale batch: the same judge at scopes far beyond what TLC can enumerate.  A handful of executions
+# per check: big capacities, long histories on a few hot keys, mass expiry, long ranges.
+
+DETERMINISTIC_RANGE_KINDS = ["lru", "mru", "fifo", "lfu", "lfuda", "utmap", "utset"]
+
+
+def _scale_cfg(rng, kind, cap, keys, ttl=0, tick=3):
+    return dict(kind=kind, cap=0 if kind in ("utmap", "utset") else cap, ts=rng.choice([0, 1]), mlf=rng.choice(MLFS),
+                ttl=ttl, tick=tick, rnum=1, rsh=1, fl=rng.choice([0, 1]), keys=keys)
+
+
+def scale_big_capacity(rng, kind, cap):
+    """fill a big cache, then keep inserting new keys (evictions), with lookups / erases in between"""
+    keys = cap + 8
+    ttl = 4000
+    c = _scale_cfg(rng, kind, cap, keys, ttl=ttl)
+    lines = [cfg_line(c)]
+    order = list(range(1, keys + 1))
+    rng.shuffle(order)
+    for k in order[:cap]:
+        lines.append("ins %d %d 3 %d" % (k, rng.randint(1, 90), ttl))
+    for i in range(40):
+        r = rng.random()
+        k = rng.randint(1, keys)
+        if r < 0.6:
+            lines.append("ins %d %d 3 %d" % (k, rng.randint(1, 90), ttl))
+        elif r < 0.8:
+            lines.append("find %d %d" % (k, rng.choice([0, 1]) if kind in PEEK_KINDS else 0))
+        else:
+            lines.append("era %d" % k)
+    lines.append("destroy")
+    return lines
+
+
+def scale_hot_keys(rng, kind, nops=1400):
+    """three slots, five keys, a long lookup-heavy history: use counts in the hundreds, hundreds of
+    misses and rejected inserts on a full cache, long gaps between two uses of one key"""
+    c = _scale_cfg(rng, kind, 3, 5, ttl=100000, tick=50)
+    lines = [cfg_line(c)]
+    for k in (1, 2, 3):
+        lines.append("ins %d %d 3 100000" % (k, k))
+    hot = rng.choice([1, 2, 3])
+    for i in range(nops):
+        r = rng.random()
+        if r < 0.55:
+            lines.append("find %d 0" % hot)
+        elif r < 0.75:
+            lines.append("find %d %d" % (rng.choice([4, 5]), rng.choice([0, 1]) if kind in PEEK_KINDS else 0))   # mostly misses
+        elif r < 0.85:
+            lines.append("ins %d 9 1 100000" % rng.choice([1, 2, 3]))      # rejected insert-only
+        elif r < 0.9:
+            lines.append("ins %d 9 2 100000" % rng.choice([4, 5]))         # rejected update-only (unless resident)
+        elif r < 0.96:
+            lines.append("find %d 0" % rng.choice([1, 2, 3]))
+        elif kind in ("lfu", "lfuda"):
+            lines.append("findc %d 1" % hot)
+        else:
+            lines.append("era 5")
+        if i % 300 == 299:
+            lines.append("ins %d 7 3 100000" % rng.choice([4, 5]))         # an eviction now and then
+    lines += ["ins 4 7 3 100000", "ins 5 7 3 100000", "destroy"]
+    return lines
+
+
+def scale_mass_expiry(rng, kind, n):
+    """n entries written with one short ttl, the clock moves past it, then single calls"""
+    keys = n + 4
+    ttl = 3
+    c = _scale_cfg(rng, kind, n + 2, keys, ttl=ttl)
+    lines = [cfg_line(c)]
+    for k in range(1, n + 1):
+        lines.append("ins %d %d 3 %d" % (k, 1 if kind == "utset" else rng.randint(1, 90), ttl))
+    lines.append("ins %d 5 3 %d" % (n + 1, 50))
+    if kind == "utlru":
+        lines = lines[:-1] + ["uttl 50", "ins %d 5 3 0" % (n + 1), "uttl %d" % ttl]
+    lines.append("tick %d" % (R * ttl + rng.choice([0, 1, 2])))
+    tail = rng.choice([["find %d 0" % rng.randint(1, n), "clean"], ["clean", "clean"],
+                       ["ins %d 5 3 %d" % (n + 2, ttl), "find %d 0" % rng.randint(1, n), "clean"],
+                       ["era %d" % rng.randint(1, n), "find %d 0" % rng.randint(1, n), "clean"]])
+    lines += tail + ["find %d 0" % (n + 1), "obs", "destroy"]
+    return lines
+
+
+def scale_long_ranges(rng, kind, cap=80):
+    keys = cap + 10
+    c = _scale_cfg(rng, kind, cap, keys, ttl=4000)
+    lines = [cfg_line(c)]
+    for _ in range(6):
+        m = rng.choice([20, 35, 70])
+        ks = [rng.randint(1, keys) for _i in range(m)]
+        var = rng.choice([0, 0, 1, 3]) if kind == "fifo" else rng.choice([0, 0, 1])
+        a = rng.choice([3, 3, 1, 2])
+        lines.append("insr %d %d %d %s" % (a, var, m, " ".join("%d %d 4000" % (k, 1 if kind == "utset" else rng.randint(1, 90))
+                                                            for k in ks)))
+        ks2 = [rng.randint(1, keys) for _i in range(rng.choice([20, 40]))]
+        p = rng.choice([0, 1]) if kind in PEEK_KINDS else 0
+        lines.append("%s %d %d %d %s" % (rng.choice(["findr", "findf"]), p, 0, len(ks2), " ".join(map(str, ks2))))
+        if rng.random() < 0.5:
+            ks3 = [rng.randint(1, keys) for _i in range(20)]
+            lines.append("erar 0 %d %s" % (len(ks3), " ".join(map(str, ks3))))
+    for k in range(keys, keys - 12, -1):
+        lines.append("ins %d 3 3 4000" % k)
+    lines.append("destroy")
+    return lines
+
+
+def scale_batch(rng, kinds, tier):
+    """executions of the scale batch for the given kinds (a few per kind in the quick tier)"""
+    out = []
+    reps = 1 if tier == "quick" else 4
+    for kind in kinds:
+        for _ in range(reps):
+            if kind in CACHE_KINDS:
+                out.append(scale_big_capacity(rng, kind, rng.choice([130, 140] if tier == "quick" else [130, 200, 260])))
+            out.append(scale_hot_keys(rng, kind, 1400 if tier == "quick" else 3000))
+            if kind in TTL_KINDS:
+                out.append(scale_mass_expiry(rng, kind, rng.choice([140] if tier == "quick" else [140, 270])))
+            if kind in DETERMINISTIC_RANGE_KINDS:
+                out.append(scale_long_ranges(rng, kind))
+    return out
